@@ -166,6 +166,7 @@ func (pc *parentController) syncRevisions(parent *unstructured.Unstructured, obs
 				return
 			}
 			pr.syncResult = syncResult
+			pc.addGeneratedSelectorLabel(parent, syncResult.Children)
 			pr.desiredChildMap = commonv1.MakeRelativeObjectMap(parent, syncResult.Children)
 		}(pr)
 	}
@@ -248,6 +249,34 @@ func (pc *parentController) syncRevisions(parent *unstructured.Unstructured, obs
 	}
 
 	return syncResult, nil
+}
+
+// addGeneratedSelectorLabel puts the controller-uid label of selector generation
+// on the desired children before the rolling update compares them with the
+// observed ones. syncParentObject adds the same label before applying, so
+// without it every child created with a generated selector looks "not updated
+// yet" to the rollout, which then never moves a second child.
+func (pc *parentController) addGeneratedSelectorLabel(parent *unstructured.Unstructured, children []*unstructured.Unstructured) {
+	if !pc.isUsingGeneratedLabelSelector() {
+		return
+	}
+	for _, child := range children {
+		if child == nil {
+			continue
+		}
+		objLabels, _, err := unstructured.NestedStringMap(child.UnstructuredContent(), "metadata", "labels")
+		if err != nil {
+			// Invalid labels are reported by syncParentObject.
+			continue
+		}
+		if objLabels == nil {
+			objLabels = make(map[string]string, 1)
+		}
+		if _, ok := objLabels["controller-uid"]; !ok {
+			objLabels["controller-uid"] = string(parent.GetUID())
+			child.SetLabels(objLabels)
+		}
+	}
 }
 
 func (pc *parentController) manageRevisions(parent *unstructured.Unstructured, observedRevisions, desiredRevisions []*v1alpha1.ControllerRevision) error {
